@@ -1,6 +1,6 @@
 #!/bin/bash
 # Instrumented builds for C40:
-#  $VERIF_BIN        scheduler build: sync of dpos/state rewritten to the vsync shim; statement points in
+#  $VERIF_BIN        scheduler build: sync of dpos/state and mempool rewritten to the vsync shim; statement points in
 #                    the validation functions that read state without the mutex and in History's commit loop
 #  $VERIF_BIN.race   free-running sibling: same harness bodies, real sync, -race
 set -eu
@@ -13,6 +13,7 @@ cd "$ROOT/engine"
 go build -o "$SCR/schedinst" ./cmd/schedinst
 "$SCR/schedinst" -repo "$REPO" -out "$SCR" -shims "$ROOT/engine/shim" \
   -pkg dpos/state:sync \
+  -pkg mempool:sync \
   -stmt "dpos/state:State.GetAllProducers" \
   -stmt "utils:HeightChanges.commit" \
   -stmt "core/transaction:ReturnVotesTransaction.SpecialContextCheck,VotingTransaction.SpecialContextCheck,VotingTransaction.checkDPoSV2Content" >/dev/null
